@@ -88,12 +88,12 @@ def height(t):
 
 # ------------------------------------------------------------------ SDK objects
 
-def build(t, registry=None, pos=()):
+def build(t, registry=None, pos=(), attach=False):
     """Construct the SDK object for the abstract tree through the public constructors.
-    registry: dict id(obj) -> (position tuple, obj)."""
+    registry: dict id(obj) -> (position tuple, obj).  attach: remember the object in the node as t["_o"]."""
     from basyx.aas import model
     c, k = t["c"], t["k"]
-    ch = [build(x, registry, pos + (i,)) for i, x in enumerate(t["ch"])]
+    ch = [build(x, registry, pos + (i,), attach) for i, x in enumerate(t["ch"])]
     ext = model.ExternalReference((model.Key(model.KeyTypes.GLOBAL_REFERENCE, "urn:ext"),))
     if c == "Submodel":
         o = model.Submodel(t["id"], submodel_element=ch, id_short=k)
@@ -139,7 +139,18 @@ def build(t, registry=None, pos=()):
         o.source = t["src"]
     if registry is not None:
         registry[id(o)] = (pos, o)
+    if attach:
+        t["_o"] = o
     return o
+
+
+def clean(x):
+    """abstract trees / providers without the attached SDK objects (for replays and evidence)"""
+    if isinstance(x, dict):
+        return {k: clean(v) for k, v in x.items() if k != "_o"}
+    if isinstance(x, (list, tuple)):
+        return [clean(v) for v in x]
+    return x
 
 
 # ------------------------------------------------------------------ Coq terms
